@@ -1,5 +1,227 @@
 import Sentinel.Drv.Common
-/-! Driver for C10 (stub: replaced by the property's real driver) -/
+import Sentinel.Model.Throttle
+/-!
+Driver for C10.
+
+Ops
+* `load <f:bits threshold> <statIntervalMs> <maxQueueingTimeMs>` — a fresh throttling rule / checker (once per case)
+* `clock <ns>`                                   — virtual time
+* `req <batch>`            `=> pass | wait <ns> | block`   (a `wait` also lets the clock advance: the slot sleeps)
+* `thread <tid> <clock-ns> req <batch>`          — declares worker `tid` (0,1,2,… in order) of the next `sched`
+* `sched <tid|tick:<ns>> …` `=> [0:pass,1:wait:<ns>,2:block]` — runs the declared workers under the schedule
+  (`go/internal/sched` semantics: skip finished, drain round-robin); a `clock` op must follow before the next `req`.
+
+Modes: `model` (the definitions of `Sentinel.Model.Throttle`; the float expression `⌈b/T·I⌉` instantiated with
+Lean `Float`), `oracle` (judges the implementation's trace: pass times are taken from the *trace*, the
+interval is the **exact** `⌈b·I/T⌉` of the property's wording; the model is only run to evaluate the known-finding
+classifiers `Cfg.rb` / `Cfg.stale` on the schedule).
+-/
 namespace Sentinel.Drv.C10
-def run (_mode : String) : IO Unit := IO.eprintln "C10: driver not implemented"
+open Sentinel.Throttle Sentinel.Drv
+
+structure St where
+  loaded : Bool := false
+  T : Float := 0.0
+  tbits : Nat := 0
+  statNs : Nat := 0
+  maxQ : Int := 0
+  last : Int := 0                       -- model: lastPassedTime
+  now : Option Int := none
+  decls : Array (Int × Nat) := #[]      -- declared workers: (clock, batch)
+  prev : Int := 0                       -- oracle: latest pass time seen in the trace (the checker starts at 0)
+  taint : Option String := none         -- oracle: a known-finding region entered earlier and not yet left
+
+/-- the float part of `DoCheck` (same binary64 operations as the Go code) -/
+def classify (T : Float) (statNs b : Nat) : Req :=
+  if b = 0 then .zero
+  else if T ≤ 0.0 then .excess
+  else if b.toFloat > T then .excess
+  else .norm (Float.ceil (b.toFloat / T * statNs.toFloat)).toUInt64.toNat
+
+def ceilDiv (a b : Nat) : Nat := (a + b - 1) / b
+
+/-- exact `⌈b·I/T⌉` for the positive float with bit pattern `bits` (`none`: T ≤ 0 or NaN) -/
+def exactIv (bits b I : Nat) : Option Nat :=
+  let e := (bits >>> 52) % 2048
+  let m := bits % 2 ^ 52
+  if bits >>> 63 = 1 then none
+  else if e = 2047 then (if m = 0 then some 0 else none)
+  else
+    let M := if e = 0 then m else 2 ^ 52 + m
+    let sh : Int := if e = 0 then -1074 else (e : Int) - 1075
+    if M = 0 then none
+    else if sh ≥ 0 then some (ceilDiv (b * I) (M * 2 ^ sh.toNat))
+    else some (ceilDiv (b * I * 2 ^ (-sh).toNat) M)
+
+def showRes : Res → String
+  | .pass => "pass"
+  | .wait w => s!"wait {w}"
+  | .block => "block"
+
+def showResT : Option Res → String
+  | some .pass => "pass"
+  | some (.wait w) => s!"wait:{w}"
+  | some .block => "block"
+  | none => "running"
+
+def parseRes? (s : String) : Option Res :=
+  match toks s with
+  | ["pass"] => some .pass
+  | ["block"] => some .block
+  | ["wait", w] => w.toInt?.map .wait
+  | _ => none
+
+def parseResT? (s : String) : Option Res :=
+  match s.splitOn ":" with
+  | [_, "pass"] => some .pass
+  | [_, "block"] => some .block
+  | [_, "wait", w] => w.toInt?.map .wait
+  | _ => none
+
+/-- `[0:pass,1:wait:5]` → results in thread order -/
+def parseResList? (s : String) : Option (List Res) :=
+  if s.startsWith "[" && s.endsWith "]" then
+    let body := ((s.drop 1).dropEnd 1).toString
+    if body.isEmpty then some [] else (body.splitOn ",").mapM parseResT?
+  else none
+
+/-- thread ids of a schedule (ticks do not concern `DoCheck`: the clock is read before the first hook) -/
+def parseSched? (ts : List String) : Option (List Nat) :=
+  (ts.filter fun t => !t.startsWith "tick:").mapM String.toNat?
+
+def validTicks (ts : List String) : Bool :=
+  ts.all fun t => if t.startsWith "tick:" then (t.drop 5).toString.toNat?.isSome else true
+
+def mkCfg (s : St) : Cfg :=
+  Cfg.start s.maxQ s.last (s.decls.toList.map fun d => (d.1, classify s.T s.statNs d.2))
+
+def knownOr (tainted : Option String) (why : String) : String :=
+  match tainted with
+  | some k => s!"known:{k}"
+  | none => s!"bad {why}"
+
+/-- judge one admitted/blocked request against the trace so far.
+    `prevMax` = latest pass time admitted before (for a block inside a `sched`: incl. the other workers). -/
+def judgeBlock (s : St) (tainted : Option String) (prevMax now : Int) (b : Nat) : String :=
+  match classify s.T s.statNs b, exactIv s.tbits b s.statNs with
+  | .zero, _ => "bad zero-batch-blocked"
+  | .excess, _ => "ok"
+  | .norm ivF, some ivX =>
+    if prevMax + ivX - now > s.maxQ then "ok"
+    else if prevMax + ivF - now > s.maxQ then "?"
+    else knownOr tainted "unjustified-block"
+  | .norm _, none => "?"
+
+def step (oracle : Bool) (s : St) (ts : List String) (line : String) : St × Option String :=
+  match ts with
+  | ["load", tb, si, mq] =>
+    match parseFbits? tb, parseHex? (tb.drop 2).toString, si.toNat?, mq.toNat? with
+    | some T, some bits, some si, some mq =>
+      if s.loaded || T.isNaN || si ≥ 2 ^ 32 || mq ≥ 2 ^ 32 then (s, some "bad-op") else
+      ({ loaded := true, T := T, tbits := bits, statNs := (if si = 0 then 1000 else si) * 1000000,
+         maxQ := (mq * 1000000 : Nat) }, none)
+    | _, _, _, _ => (s, some "bad-op")
+  | ["clock", t] =>
+    match t.toNat? with
+    | some t => if s.loaded then ({ s with now := some (t : Int) }, none) else (s, some "bad-op")
+    | none => (s, some "bad-op")
+  | ["req", b] =>
+    match b.toNat?, s.now with
+    | some b, some now =>
+      if !s.loaded || b ≥ 2 ^ 32 || !s.decls.isEmpty then (s, some "bad-op") else
+      let cls := classify s.T s.statNs b
+      let (l', r) := doCheck s.maxQ s.last now cls
+      if !oracle then
+        let now' := match r with | .wait w => now + w | _ => now
+        ({ s with last := l', now := some now' }, some (showRes r))
+      else
+        match (resPart line).bind parseRes? with
+        | none => (s, some "bad unreadable-result")
+        | some obs =>
+          let tainted := if s.last ≠ s.prev then s.taint else none
+          let w : Int := match obs with | .wait w => w | _ => 0
+          let verdict : String :=
+            match obs with
+            | .block => judgeBlock s tainted s.prev now b
+            | _ =>
+              match cls, exactIv s.tbits b s.statNs with
+              | .zero, _ => if obs = .pass then "ok" else "bad zero-batch-waits"
+              | .excess, none => "bad admitted-with-threshold<=0"
+              | cls, some ivX =>
+                let ivF : Int := match cls with | .norm iv => iv | _ => ivX
+                if (match obs with | .wait w => decide (w ≤ 0) | _ => false) then "bad nonpositive-wait"
+                else if w > s.maxQ then "bad wait>max"
+                else if s.prev + ivX ≤ now + w then "ok"
+                else if s.prev + ivF ≤ now + w then "?"
+                else knownOr tainted "spacing"
+              | _, none => "?"
+          let prev' := match obs, cls with
+            | .block, _ => s.prev
+            | _, .zero => s.prev
+            | _, _ => max s.prev (now + w)
+          let taint' := if l' = prev' then none else s.taint
+          ({ s with last := l', prev := prev', taint := taint', now := some (now + w) }, some verdict)
+    | _, _ => (s, some "bad-op")
+  | ["thread", tid, clk, "req", b] =>
+    match tid.toNat?, clk.toNat?, b.toNat? with
+    | some tid, some clk, some b =>
+      if !s.loaded || tid ≠ s.decls.size || b ≥ 2 ^ 32 || tid ≥ 8 then (s, some "bad-op")
+      else ({ s with decls := s.decls.push ((clk : Int), b) }, none)
+    | _, _, _ => (s, some "bad-op")
+  | "sched" :: es =>
+    match parseSched? es with
+    | none => (s, some "bad-op")
+    | some sch =>
+      if !s.loaded || s.decls.isEmpty || !validTicks es then (s, some "bad-op") else
+      let c := (mkCfg s).runSched sch
+      let s' := { s with last := c.last, now := none, decls := #[] }
+      if !oracle then
+        (s', some (showList ((c.results.zipIdx).map fun (r, i) => s!"{i}:{showResT r}")))
+      else
+        match (resPart line).bind parseResList? with
+        | none => (s', some "bad unreadable-result")
+        | some obs =>
+          if obs.length ≠ s.decls.size then (s', some "bad unreadable-result") else
+          let here : Option String :=
+            if c.rb then some "throttle-rollback-collision"
+            else if c.stale then some "throttle-stale-add"
+            else none
+          let tainted := here.orElse fun _ => if s.last ≠ s.prev then s.taint else none
+          let rows := (s.decls.toList.zip obs).map fun ((now, b), r) =>
+            (now, b, r, classify s.T s.statNs b, exactIv s.tbits b s.statNs)
+          -- per-thread checks that hold under every schedule
+          let bad1 := rows.filterMap fun (_, _, r, cls, x) =>
+            match r, cls, x with
+            | .wait w, _, _ => if w ≤ 0 then some "bad nonpositive-wait" else if w > s.maxQ then some "bad wait>max" else
+                (match cls with | .zero => some "bad zero-batch-waits" | _ => none)
+            | .block, .zero, _ => some "bad zero-batch-blocked"
+            | .pass, .excess, none => some "bad admitted-with-threshold<=0"
+            | _, _, _ => none
+          -- admitted requests sorted by pass time: (p, ivX, ivF)
+          let adm := rows.filterMap fun (now, _, r, cls, x) =>
+            match r.passAt now, cls, x with
+            | some p, .norm ivF, some ivX => some (p, (ivX : Int), ivF)
+            | some p, .excess, some ivX => some (p, (ivX : Int), (ivX : Int))
+            | _, _, _ => none
+          let adm := adm.mergeSort fun a b => a.1 ≤ b.1
+          let (_, spX, spF) := adm.foldl (fun (acc : Int × Bool × Bool) e =>
+            (e.1, acc.2.1 && decide (acc.1 + e.2.1 ≤ e.1), acc.2.2 && decide (acc.1 + e.2.2 ≤ e.1))) (s.prev, true, true)
+          let top := adm.foldl (fun a e => max a e.1) s.prev
+          let blocks := rows.filterMap fun (now, b, r, _, _) =>
+            match r with | .block => some (judgeBlock s tainted top now b) | _ => none
+          let verdict :=
+            match bad1 with
+            | w :: _ => w
+            | [] =>
+              if !spX && !spF then knownOr tainted "spacing"
+              else match blocks.find? (fun v => v ≠ "ok" && v ≠ "?") with
+                | some v => v
+                | none => if !spX || blocks.contains "?" then "?" else "ok"
+          let taint' := if c.last = top then none else tainted
+          ({ s' with prev := top, taint := taint' }, some verdict)
+  | _ => (s, some "bad-op")
+
+def run (mode : String) : IO Unit :=
+  loop ({} : St) (step (mode == "oracle"))
+
 end Sentinel.Drv.C10
